@@ -15,7 +15,9 @@ another session's upstream.  Delivery itself is only counted (coverage), never d
 Then model == implementation per event (Server.recv_datagram / Server.tun_packet of the extracted model)."""
 import re
 import vlib, srvlib
-from srvlib import b32c, enc, qname
+from srvlib import b32c, enc, qname, login_stub
+
+RAWHDR = bytes([0x10, 0xd1, 0x9e])
 
 SEND_RE = re.compile(r'^(\d+):([0-9a-f]*):(\d+)=([0-9a-f]+|-)(\{(-?\d+):([0-9a-f]*|-)\})?$')
 
@@ -62,6 +64,7 @@ def gen(seed, tier):
     rng = vlib.rng_for(seed, 'c01-forward')
     hs, meta = [], []
     n = 60 if tier == 'quick' else 600
+    nraw = 0
     for it in range(n):
         g = srvlib.HistGen(rng, adversarial=0.0)
         g.no_case_relay = True
@@ -94,6 +97,16 @@ def gen(seed, tier):
                 cm = b32c(p.s.rs >> 10) + b32c(p.s.rs >> 5) + b32c(p.s.rs)
                 g.emit_query(p.s.addr, b's' + b32c(p.s.uid) + b32c([5, 6, 26, 7][codec]) + cm + b'.' + g.domain)
                 p.s.codec = codec
+        # some senders move to raw-UDP mode (after an upstream packet of their own in DNS mode, which stays in their reassembly
+        # buffer): their frames for the recipient then arrive as raw data frames
+        for p in senders:
+            p.raw = False
+            if rng.randrange(3) == 0:
+                fx = frame(rng, rng.choice([60, 90, 130]), 0x08080808, 0xA0 + p.s.uid)
+                upstream(g, p, fx, pieces=rng.choice([1, 2]))
+                g.emit_dgram(p.s.addr, RAWHDR + bytes([0x10 | (p.s.uid & 15)]) + login_stub(g.password, (p.s.seed + 1) & 0xffffffff))
+                p.raw = True
+                nraw += 1
         # what arrives for the recipient, in this order: k0 frames on the server's tun, then frames from the senders, interleaved
         plan = []
         for _ in range(rng.choice([1, 1, 2])):
@@ -111,6 +124,8 @@ def gen(seed, tier):
             sizes.append(len(f) + 1)
             if kind == 'tun':
                 g.events.append('T %d %s' % (g.now, f.hex()))
+            elif p.raw:
+                g.emit_dgram(p.s.addr, RAWHDR + bytes([0x20 | (p.s.uid & 15), 0x5A]) + f)
             else:
                 upstream(g, p, f, pieces=rng.choice([1, 1, 2]))
             g.now += rng.choice([0, 0, 1])
